@@ -373,6 +373,19 @@ pub fn generate_prefix_stmts(csi_methods: &CsiMethods) -> Vec<Stmt> {
     Vec::new()
 }
 
+#[cfg(datadog_dd_native_iast_rewriter_js_verif)]
+pub fn verif_parse_js(code: String, file: &str) -> Result<Program> {
+    let compiler = Compiler::new(Arc::new(swc_common::SourceMap::new(
+        FilePathMapping::empty(),
+    )));
+    try_with_handler(compiler.cm.clone(), default_handler_opts(), |handler| {
+        let source_file = compiler
+            .cm
+            .new_source_file(Arc::new(FileName::Real(PathBuf::from(file))), code);
+        parse_js(&source_file, handler, &compiler)
+    })
+}
+
 #[cfg(test)]
 pub fn debug_js(code: String) -> Result<RewrittenOutput> {
     use swc::PrintArgs;
